@@ -38,6 +38,7 @@ def run(repo, run, tier):
     # on any retry (each retry clamped to the requested step at the call)
     from .c05 import retry_step
     retry_step(repo, run, rule_id="C18.11", strict=True)
+    own_callback_list(repo, run, fn)
 
 
 def construction(repo, run, fn):
@@ -434,3 +435,52 @@ def teval_values_are_integrated(repo, run, fn):
         run.report("C18.10", DS, x, "the states returned for t_eval are read off the dense output (`%s`) instead of being the samples the integrator was stopped at: the dense output is a "
                    "cubic Hermite interpolant for every method, so with a high-order method (long steps) the returned columns miss the requested tolerance by orders of magnitude and "
                    "disagree with driving the object API point by point" % src(x)[:60])
+
+
+def own_callback_list(repo, run, fn):
+    """'results agree with driving the object API with the same settings': solve_ivp appends its step-clipping closure (which captures THIS call's max_step / min_step)
+    to the list of callbacks it hands to integrate().  That list must be the facade's own: if it is the caller's list object, the closure stays in it, and a later
+    solve_ivp call that is given the same list is still clipped by the earlier call's bounds (and the caller's list grows)."""
+    rid = run.rule("C18.12", "the list solve_ivp appends its clipping callback to is a fresh list on every path that reaches the append (list(...), a list display, a copy), "
+                             "never the object the caller passed in", floor=1)
+    apps = [c for c in ast.walk(fn) if isinstance(c, ast.Call) and isinstance(c.func, ast.Attribute) and c.func.attr in ("append", "extend", "insert") and
+            isinstance(c.func.value, ast.Name) and any(isinstance(a, ast.Name) for a in c.args)]
+    cbname = None
+    for c in apps:
+        if any(isinstance(st, ast.FunctionDef) and st is not fn and any(isinstance(a, ast.Name) and a.id == st.name for a in c.args) for st in ast.walk(fn)):
+            cbname = c.func.value.id
+    if cbname is None:
+        raise AnalysisError("solve_ivp: the registration of the clipping callback (an append to the callback list) was not found")
+    defs = [st for st in walk_no_nested(fn) if isinstance(st, ast.Assign) and any(isinstance(t, ast.Name) and t.id == cbname for t in st.targets)]
+
+    def fresh(v):
+        if isinstance(v, (ast.List, ast.ListComp)):
+            return True
+        if isinstance(v, ast.Call) and (dotted(v.func) in ("list", "copy.copy", "copy.deepcopy") or (isinstance(v.func, ast.Attribute) and v.func.attr == "copy")):
+            return True
+        if isinstance(v, ast.BinOp) and isinstance(v.op, ast.Add) and (fresh(v.left) or fresh(v.right)):
+            return True
+        if isinstance(v, ast.IfExp):
+            return fresh(v.body) and fresh(v.orelse)
+        return False
+    bad = [st for st in defs if not fresh(st.value)]
+    # a binding that is not fresh is harmless only if every path from it to the append passes a fresh re-binding: with the straight-line / if-chain shapes used here,
+    # a non-fresh binding followed by conditional re-bindings leaves the `else` (caller's list) path open unless the chain is exhaustive with fresh values
+    exhaustive = False
+    if bad and len(bad) == 1:
+        st0 = bad[0]
+        blk = st0._parent.body if hasattr(st0._parent, "body") else []
+        nxt = blk[blk.index(st0) + 1] if st0 in blk and blk.index(st0) + 1 < len(blk) else None
+        if isinstance(nxt, ast.If):
+            chain, cur = [], nxt
+            while isinstance(cur, ast.If):
+                chain.append(cur.body)
+                cur = cur.orelse[0] if len(cur.orelse) == 1 and isinstance(cur.orelse[0], ast.If) else (cur.orelse or None)
+            exhaustive = cur is not None and all(any(isinstance(x, ast.Assign) and any(isinstance(t, ast.Name) and t.id == cbname for t in x.targets) and fresh(x.value)
+                                                     for x in b) for b in chain + [cur])
+    ok = not bad or exhaustive
+    run.judged(rid, "callback list `%s`: bindings %s" % (cbname, [src(d.value)[:40] for d in defs]), ok=ok)
+    if not ok:
+        run.report("C18.12", DS, bad[0], "the callback list `%s` can be the object the caller passed in (`%s` without a copy on some path): solve_ivp appends its step-clipping closure to "
+                   "it, so a later call given the same list still runs the clip of the EARLIER call (its max_step / min_step), and its time grid, states and counters no "
+                   "longer agree with the object API driven with that call's settings" % (cbname, src(bad[0].value)[:50]))
